@@ -5,7 +5,7 @@ import srvgen
 def gen(rng, tier):
     n = 10000 if tier == "quick" else 300000
     for _ in range(n):
-        yield srvgen.gen_case(rng, loaded=(rng.random() < 0.6), mutate_p=0.05)
+        yield srvgen.gen_case(rng, loaded=(rng.random() < 0.6), mutate_p=0.05, clean_p=0.2)
 
 
 def nontrivial(case, impl, model, oracle):
